@@ -49,7 +49,7 @@ class Check(PropertyCheck):
     case_type = "(N * Z * list N)"
     shard = 300
     rule = ("sessions on ONE running application per version (streams of callbacks sharing type, sender and APS counter; joins of devices with manufacturer-specific address prefixes included); "
-            "every protocol version 4..14 x incomingMessageHandler with all 7 defined message types and undefined ones, random APS "
+            "every protocol version 4..14 x boundary values of every address-like field (reserved short addresses as sender) x incomingMessageHandler with all 7 defined message types and undefined ones, random APS "
             "fields, endpoints, sender, LQI 0..255, RSSI -128..127, payload lengths 0..maximum (and a long one), and trustCenterJoinHandler "
             "with every device-update status x every join decision; frames built by an independent byte-level encoder; non-trivial = a "
             "message type that must yield a packet, or a join/leave; distinct by frame bytes")
@@ -111,6 +111,19 @@ class Check(PropertyCheck):
                      "timestamp": rng.randrange(1 << 32), "payload": [rng.randrange(256) for _ in range(n)],
                      "hseq": rng.randrange(256)}
                 cases.append({"v": v, "kind": "incoming", "m": m})
+            # boundary values of every address-like field (reserved short addresses included): a deliverable message is
+            # delivered whatever its sender, group, endpoints, profile or cluster
+            for ty in (0, 2, 4):
+                for sender in (0x0000, 0x0001, OWN_NWK, 0x7FFF, 0x8000, 0xFFF7, 0xFFF8, 0xFFFB, 0xFFFC, 0xFFFD, 0xFFFE, 0xFFFF):
+                    b = rng.choice([0x0000, 0xFFFF, 0xFFFC, 0x0001])
+                    m = {"type": ty, "profile": rng.choice([0, 0xFFFF, 0x0104, 0xC05E]), "cluster": rng.choice([0, 0xFFFF, 0x0019]),
+                         "src_ep": rng.choice([0, 1, 0xF2, 0xFF]), "dst_ep": rng.choice([0, 1, 0xF2, 0xFF]), "options": rng.choice([0, 0xFFFF]),
+                         "group": b, "seq": rng.choice([0, 0xFF]), "sender": sender,
+                         "eui64": [rng.choice([0, 0xFF])] * 8, "binding": rng.choice([0, 0xFF]),
+                         "address": rng.choice([0, 0xFF]), "lqi": rng.choice([0, 255]), "rssi": rng.choice([-128, 127]),
+                         "timestamp": rng.choice([0, 0xFFFFFFFF]), "payload": [rng.randrange(256) for _ in range(rng.choice([0, 1, 5]))],
+                         "hseq": rng.randrange(256)}
+                    cases.append({"v": v, "kind": "incoming", "m": m})
             # streams on the one running application: consecutive deliverable callbacks that share message type, sender
             # and APS counter (a device with a constant or restarted counter) but differ elsewhere, with ignored types
             # and other senders in between; every one of them must still yield its own packet
